@@ -1047,6 +1047,15 @@ def make_builtins(I):
     add("max", _minmax("max"))
 
     def _sum(I, st, a, k):
+        if isinstance(a[0], Ref) and st.get(a[0]).kind == "symlist":
+            outs = list(I.call(I.builtins["psum"], [a[0], st.get(a[0]).length], {}, st))
+            start = a[1] if len(a) > 1 else k.get("start", 0)
+            for s1, v in outs:
+                if isinstance(v, Exc) or (not is_z3(start) and start == 0):
+                    yield s1, v
+                else:
+                    yield from M.binop(I, s1, "Add", start, v)
+            return
         items = I.iterate(a[0], st)
         tot = a[1] if len(a) > 1 else k.get("start", 0)
         cur = [(st, tot)]
